@@ -17,6 +17,7 @@ package bt
 //@   ensures[C01.varint_bytes_len] (= (len result) (spec.vlen v))
 //@   opt bytes-bound 9
 //@   opt bytes-le-defs 1
+//@   opt reveal vi
 //@   ensures[C01.varint_bytes] (= (bytes result) (spec.vi v))
 
 //@ func bt.LittleEndianBytes
@@ -436,6 +437,7 @@ package bt
 //@ func bt.(*VarInt).ReadFrom
 //@   bytes token
 //@   opt bytes-le-defs 1
+//@   opt reveal vi_n
 //@   ensures[C01.varint_read_len] (=> (= err nil) (and (or (= r0 1) (= r0 3) (= r0 5) (= r0 9)) (>= r0 (spec.vlen (deref v))) (=> (= r0 1) (< (deref v) 253)) (=> (= r0 3) (< (deref v) 65536)) (=> (= r0 5) (< (deref v) 4294967296)) (<= 0 (deref v)) (< (deref v) 18446744073709551616)))
 //@   ensures[C01.varint_read] (=> (= err nil) (= (old (rem r)) (bcat (spec.vi_n (deref v) r0) (rem r))))
 //@ func bt.readBytesN
@@ -470,3 +472,19 @@ package bt
 //@   loop 1 invariant (= (blen (old (rem r))) (+ bytesRead (blen (rem r))))
 //@   loop 1 invariant (>= bytesRead (blen (spec.tx_pre_out tx extended inputCount outputCount i)))
 //@   loop 1 invariant (=> (= bytesRead (blen (spec.tx_pre_out tx extended inputCount outputCount i))) (= (old (rem r)) (bcat (spec.tx_pre_out tx extended inputCount outputCount i) (rem r))))
+//@ func bt.NewTxFromStream
+//@   bytes token
+//@   ensures[C01.stream_nonnil] (=> (= err nil) (and (spec.inputs_nonnil r0) (spec.out_scripts_nonnil r0)))
+//@   ensures[C01.stream_used] (=> (= err nil) (and (<= 0 r1) (<= r1 (len b))))
+//@   ensures[C01.stream_canon] (=> (= err nil) (or (and (>= r1 (blen (spec.tx_bytes r0 false))) (=> (= r1 (blen (spec.tx_bytes r0 false))) (= (bsub (bytes b) 0 r1) (spec.tx_bytes r0 false)))) (and (>= r1 (blen (spec.tx_bytes r0 true))) (=> (= r1 (blen (spec.tx_bytes r0 true))) (= (bsub (bytes b) 0 r1) (spec.tx_bytes r0 true))))))
+//@ func bt.NewTxFromStream
+//@   define (=> (= err nil) (= r1 (spec.parse_used (bytes b))))
+//@ func bt.NewTxFromBytes
+//@   bytes token
+//@   ensures[C01.frombytes_exact] (=> (= err nil) (= (spec.parse_used (bytes b)) (len b)))
+//@   ensures[C01.frombytes_nonnil] (=> (= err nil) (and (not (nil? r0)) (spec.inputs_nonnil r0) (spec.out_scripts_nonnil r0)))
+//@   ensures[C01.frombytes_canon] (=> (= err nil) (or (and (>= (len b) (blen (spec.tx_bytes r0 false))) (=> (= (len b) (blen (spec.tx_bytes r0 false))) (= (bytes b) (spec.tx_bytes r0 false)))) (and (>= (len b) (blen (spec.tx_bytes r0 true))) (=> (= (len b) (blen (spec.tx_bytes r0 true))) (= (bytes b) (spec.tx_bytes r0 true))))))
+//@ func bt.(*Txs).ReadFrom
+//@   bytes token
+//@   ensures[C01.txs_read_count] (=> (= err nil) (= (blen (old (rem r))) (+ r0 (blen (rem r)))))
+//@   loop 0 invariant (= (blen (old (rem r))) (+ bytesRead (blen (rem r))))
